@@ -49,6 +49,10 @@ type StoreCase struct {
 	NoRecovery bool
 	// FaultAt > 0: the FaultAt-th storage update of the first start-up fails (see RunStoreCase).
 	FaultAt int
+	// OptOrder varies the option list handed to coercion.New without changing what it means: OptOrder%3 adds
+	// WithMaxSubmit (1: 2 s, 2: 100 h; it concerns Start, not recovery), (OptOrder/3)%2 puts WithMaxLastUpdate last
+	// instead of first (WithNoRecovery, when drawn, goes with the others).
+	OptOrder int `json:",omitempty"`
 }
 
 func shiftState(s *workflow.State, d time.Duration) {
@@ -234,9 +238,19 @@ func RunStoreCase(c *StoreCase, res *vprop.Result) {
 			return
 		}
 	}
-	opts := []coercion.Option{coercion.WithMaxLastUpdate(MaxLastUpdate)}
+	var others []coercion.Option
+	switch c.OptOrder % 3 {
+	case 1:
+		others = append(others, coercion.WithMaxSubmit(2*time.Second))
+	case 2:
+		others = append(others, coercion.WithMaxSubmit(100*time.Hour))
+	}
 	if c.NoRecovery {
-		opts = append(opts, coercion.WithNoRecovery())
+		others = append(others, coercion.WithNoRecovery())
+	}
+	opts := append([]coercion.Option{coercion.WithMaxLastUpdate(MaxLastUpdate)}, others...)
+	if (c.OptOrder/3)%2 == 1 {
+		opts = append(others, coercion.WithMaxLastUpdate(MaxLastUpdate))
 	}
 	if c.FaultAt > 0 && !c.NoRecovery {
 		// write-fault variant: only when every Running plan is stale (then all writes of the first start-up are the
